@@ -81,6 +81,7 @@ UNDECIDED = {
 def run(ctx):
     F = ctx.facts
     r13_5(ctx)
+    r13_6(ctx)
     ctx.rule('R13.1', 'no throw expression / std::sto* call propagates uncaught to main() (call graph + handler types at every call site)')
     ctx.rule('R13.2', 'CppCheck::checkInternal catches InternalError, TerminateException, std::runtime_error, std::bad_alloc around the analysis')
     ctx.rule('R13.3', 'explicit throws in lib/ use the closed exception vocabulary')
@@ -376,3 +377,63 @@ def r13_5(ctx):
                     (f['name'], x['op'], x['l'], 'without a zero test of the divisor' if not zero_ok else 'without a guard for LLONG_MIN and a divisor of -1 (the sibling MathLib::divide has one)')),
                    where)
     ctx.floor('R13.5 signed 64-bit division / modulo sites', n, 5)
+
+
+def r13_6(ctx):
+    """R13.6  termination of the class-hierarchy walkers: findVariableTypeInBase, findFunctionInBase, Type::getFunction, isDerivedFrom ... recurse over
+    Type::derivedFrom without a visited set; they terminate because the base-class graph is kept acyclic when it is built.  Every write of a non-null
+    value to Type::BaseInfo::type is therefore dominated by a negative Type::findDependency(...) test (who-may-write + must-guard)."""
+    from .common import paths as _p
+    from .common.facts import walk, strip
+    F = ctx.facts
+    ctx.rule('R13.6', 'base-class links are only made after the cycle test (the hierarchy walkers rely on an acyclic graph)')
+    n = 0
+    for f in F.all_fns():
+        if not f['file'].startswith('lib/') or not any(a['n'] == 'Type::BaseInfo::type' and a['a'] != 'r' for a in f['acc']):
+            continue
+        b = F.body(f)
+        if b is None:
+            continue
+
+        def cond(node, truth):
+            n0 = strip(node)
+            if n0 is not None and n0.get('k') == 'CXXMemberCallExpr' and n0.get('fn') == 'Type::findDependency':
+                return (('depends', truth),)
+            return ()
+
+        def is_link(x):
+            return x.get('k') == 'BinaryOperator' and x.get('op') == '=' and (strip(x['c'][0]) or {}).get('n') == 'Type::BaseInfo::type'
+        r = _p.analyse(b['body'], cond=cond, observe=is_link)
+        for i, st in r.at.items():
+            x = r.at_node[i]
+            rhs = strip(x['c'][1])
+            while rhs is not None and rhs.get('k') == 'ImplicitCastExpr' and rhs.get('c'):
+                rhs = rhs['c'][0]
+            if rhs is not None and rhs.get('k') == 'CXXNullPtrLiteralExpr':
+                continue
+            n += 1
+            ok = ('depends', False) in st
+            if not ok and rhs is not None and rhs.get('k') == 'DeclRefExpr':
+                # `if (v && v->findDependency(t)) {..} else link = v;` : in the else branch either v is null (a null link) or the test was false
+                from .common.facts import walk_parents
+                from .C23 import conjuncts
+                for y, parents in walk_parents(b['body']):
+                    if y is x:
+                        for p_ in reversed(parents):
+                            if p_.get('k') == 'IfStmt' and p_.get('else') is not None and any(z is x for z in walk(p_['else'])):
+                                cj = [strip(c_) for c_ in conjuncts(p_.get('cond'))]
+                                dep = [c_ for c_ in cj if c_ is not None and c_.get('k') == 'CXXMemberCallExpr' and c_.get('fn') == 'Type::findDependency']
+                                rest = [c_ for c_ in cj if c_ not in dep]
+                                def is_v(c_):
+                                    while c_ is not None and c_.get('k') == 'ImplicitCastExpr' and c_.get('c'):
+                                        c_ = c_['c'][0]
+                                    return c_ is not None and c_.get('k') == 'DeclRefExpr' and c_.get('di') == rhs.get('di')
+                                if dep and all(is_v(c_) for c_ in rest) and all(any(z.get('di') == rhs.get('di') for z in walk(d_['c'][0])) for d_ in dep):
+                                    ok = True
+                                break
+                        break
+            ctx.ob('R13.6', 'base-link:%s' % f['name'], ok,
+                   ('%s links a base class only after findDependency() was false' % f['name']) if ok else
+                   ('%s assigns Type::BaseInfo::type at line %s on a path where Type::findDependency() has not ruled out a cycle: with `struct A; struct B : A {}; struct A : B {};` '
+                    'the base-class graph becomes cyclic and the recursive hierarchy walkers overflow the stack' % (f['name'], x['l'])), '%s:%s' % (f['file'], x['l']))
+    ctx.floor('R13.6 sites linking a base class', n, 2)
